@@ -17,15 +17,16 @@ import sopht.numeric.immersed_boundary_ops as ibo
 def make_markers(r, dim, shape, dx, shift, n, real_t):
     """marker positions at least two cells inside the domain: random, on cell centres / faces, ± 1–2 ulp,
     clustered in one cell and duplicated"""
-    lo = 2.0 * dx + shift
+    # admissible interior = at least two cells inside the domain [shift - dx/2, shift - dx/2 + ncell*dx]
+    lo = shift + 1.5 * dx
     pos = np.zeros((dim, n), dtype=np.float64)
     for a in range(dim):
         ncell = shape[dim - 1 - a]
-        hi = (ncell - 3) * dx + shift
+        hi = shift + (ncell - 2.5) * dx
         pos[a] = r.uniform(lo, hi, size=n)
     kinds = []
     for m in range(n):
-        kind = ["random", "centre", "face", "centre+ulp", "centre-ulp", "cluster", "duplicate"][m % 7]
+        kind = ["random", "centre", "face", "centre+ulp", "centre-ulp", "cluster", "duplicate", "edge_lo", "edge_hi"][m % 9]
         kinds.append(kind)
         for a in range(dim):
             ncell = shape[dim - 1 - a]
@@ -44,6 +45,10 @@ def make_markers(r, dim, shape, dx, shift, n, real_t):
                 pos[a, m] = (2 + r.uniform(0, 1)) * dx + shift + dx
             elif kind == "duplicate" and m > 0:
                 pos[a, m] = pos[a, m - 1]
+            elif kind == "edge_lo":   # just inside the lower admissible bound (two cells from the edge)
+                pos[a, m] = shift + (1.5 + r.uniform(0.0, 0.45)) * dx
+            elif kind == "edge_hi":
+                pos[a, m] = shift + (ncell - 2.5 - r.uniform(0.0, 0.45)) * dx
     return pos.astype(real_t), kinds
 
 
@@ -140,7 +145,7 @@ def _setup(seed, dim, kernel, real_t, k):
         shape = tuple(shape[0] + i for i in range(dim))
     dx = real_t(r.uniform(0.05, 0.5))
     shift = real_t(dx / 2) if k % 3 else real_t(r.uniform(0, 0.3))
-    n = 7 if dim == 3 else 14
+    n = 9 if dim == 3 else 18
     pos, kinds = make_markers(r, dim, shape, float(dx), float(shift), n, real_t)
     u = r.normal(size=shape).astype(real_t)
     uvec = r.normal(size=(dim,) + shape).astype(real_t)
